@@ -1,6 +1,7 @@
 package c14
 
 import (
+	"encoding/json"
 	"fmt"
 	"math/big"
 	"sort"
@@ -34,8 +35,24 @@ func genParams(rt *rapid.T, seedTag string) (sim.Params, string, []string) {
 		// rejected when the proposal is created
 		"bogus.key:1", "nocolon", "a:b:c", "feeOption.minFeeDecimal:99", "stakingOptions.topValidatorCount:1", "onsOptions.perBlockFees:0", "feeOption.minFeeDecimal:x",
 	}
-	flavour := []string{"plain", "plain", "evidence", "staking", "boundary"}[u.N(5, "c14-flavour")]
+	flavour := []string{"plain", "plain", "evidence", "staking", "boundary", "propopts"}[u.N(6, "c14-flavour")]
 	switch flavour {
+	case "propopts":
+		// the only deadlines that validate for all three proposal types at once (config >= 10000 / >= 10000, code >= 10000 /
+		// 150000..450000, general 75000..150000 both): proposal-option updates can pass; proposals end by votes, cancel or
+		// finalisation here, never by a deadline
+		p.PropFundingDL, p.PropVotingDL = 75000, 150000
+		ini, goal := bigS(p.PropInitialFunding), bigS(p.PropFundingGoal)
+		lower := new(big.Int).Mul(ini, big.NewInt(3)) // the smallest admissible goal (3 x initial funding)
+		if lower.Cmp(goal) >= 0 {
+			lower = new(big.Int).Set(goal)
+		}
+		for _, typ := range []string{"general", "configUpdate", "codeChange"} {
+			pool = append(pool, "propOptions."+typ+".fundingGoal:"+lower.String(), "propOptions."+typ+".fundingGoal:"+new(big.Int).Mul(goal, big.NewInt(2)).String(),
+				"propOptions."+typ+".fundingGoal:"+new(big.Int).Add(goal, big.NewInt(1)).String())
+		}
+		pool = append(pool, "propOptions.general.initialFunding:"+new(big.Int).Div(ini, big.NewInt(2)).String(), "propOptions.configUpdate.passPercentage:60",
+			"propOptions.general.passPercentage:80", "propOptions.codeChange.votingDeadline:150001")
 	case "evidence":
 		// main-net sized evidence options: updates validate, and two updates that are each valid when proposed
 		// can invalidate one another (minVotesRequired 700 then blockVotesDiff 1100) -> finalisation fails
@@ -137,6 +154,24 @@ func (f *fgen) valByAddr(a string) *sim.Val {
 	return nil
 }
 
+// propOption reads the proposal options of a type that are in force in the last committed state.
+func (f *fgen) propOption(typ governance.ProposalType) *governance.ProposalOption {
+	if f.m == nil || f.m.prev == nil {
+		return nil
+	}
+	var set governance.ProposalOptionSet
+	if json.Unmarshal(currentOption(f.m.prev, "propOptions"), &set) != nil {
+		return nil
+	}
+	switch typ {
+	case governance.ProposalTypeConfigUpdate:
+		return &set.ConfigUpdate
+	case governance.ProposalTypeCodeChange:
+		return &set.CodeChange
+	}
+	return &set.General
+}
+
 func bigS(s string) *big.Int { b, _ := new(big.Int).SetString(s, 10); return b }
 
 func (f *fgen) create() txgen.Tx {
@@ -172,11 +207,21 @@ func (f *fgen) create() txgen.Tx {
 	voteDL := fundDL + w.P.PropVotingDL
 	initial := bigS(w.P.PropInitialFunding)
 	goal := bigS(w.P.PropFundingGoal)
-	switch f.u.N(6, "cr-init") {
+	passPct := w.P.PropPassPct
+	// the options in force (a passed proposal-option update changes what a creation has to name)
+	if o := f.propOption(typ); o != nil && o.InitialFunding != nil && o.FundingGoal != nil {
+		initial, goal, passPct = new(big.Int).Set(o.InitialFunding.BigInt()), new(big.Int).Set(o.FundingGoal.BigInt()), o.PassPercentage
+		voteDL = fundDL + o.VotingDeadline
+	}
+	switch f.u.N(8, "cr-init") {
 	case 0:
 		initial = new(big.Int).Sub(goal, big.NewInt(1))
 	case 1:
 		initial = new(big.Int).Div(goal, big.NewInt(2))
+	case 2:
+		initial = new(big.Int).Set(goal) // the goal met by the creation itself
+	case 3:
+		initial = new(big.Int).Add(goal, big.NewInt(int64(1+f.u.N(3, "cr-init-over"))))
 	}
 	tags := []string{"focused"}
 	if scenario := len(f.priority) > 0 && f.priority[len(f.priority)-1] == string(id); !scenario && len(f.m.Order) > 0 && f.u.N(8, "cr-reuse") < 1+2*len(f.byStage(SZF)) {
@@ -198,7 +243,7 @@ func (f *fgen) create() txgen.Tx {
 	}
 	m := agov.CreateProposal{ProposalID: id, ProposalType: typ, Headline: "h", Description: "d", Proposer: usr.Addr,
 		InitialFunding: txgen.Amt("OLT", initial), FundingDeadline: fundDL, FundingGoal: balance.NewAmountFromBigInt(goal),
-		VotingDeadline: voteDL, PassPercentage: w.P.PropPassPct, ConfigUpdate: cfg}
+		VotingDeadline: voteDL, PassPercentage: passPct, ConfigUpdate: cfg}
 	tx := txgen.ProposalCreate(usr, m, w.Fee, w.Memo())
 	tx.Tags = tags
 	tx.Note = fmt.Sprintf("%s:%d:%d:%d:%d", id, ui, fundDL, voteDL, int(typ))
